@@ -2,6 +2,7 @@ package props
 
 import (
 	"fmt"
+	"go/constant"
 	"go/token"
 	"strings"
 
@@ -14,7 +15,7 @@ func init() {
 	Registry["C14"] = Entry{
 		Run: runC14,
 		Explanation: "Decides structural necessary conditions of 'VDR reclaims what it may and reports exactly what it removed' (partial claim): " +
-			"W1 nothing outside the pipestance is touched: every path handed to os.RemoveAll by the VDR functions originates from Metadata path accessors (TempDir/enumerateFiles/enumerateTemp) or from keys of fileParamMap, whose keys are the paths produced by walking enumerateFiles(); Node.vdrKill touches no fork when an ancestor directory is a symlink, " +
+			"W1 nothing outside the pipestance is touched: every path handed to os.RemoveAll by the VDR functions originates from Metadata path accessors (TempDir/enumerateFiles/enumerateTemp) or from keys of fileParamMap, whose keys are the paths produced by walking enumerateFiles(); Node.vdrKill touches no fork when an ancestor directory is a symlink; path containment by string prefix uses a separator-terminated prefix everywhere in the VDR file, " +
 			"W2 what is reported is what is removed: the slice appended to a report's Paths is the slice the removal loop ranges over (or the content of the temp directory removed for the same metadata object), removal happens between the append and the report write, inside a critical section for the kill functions; removal errors of the per-file kill are recorded; a cache entry whose size was added to a report leaves fileParamMap in the same call (directly or via a list whose every element is deleted), so a later vdrKillSome cannot count it again, " +
 			"W3 temp directories go with their phase: each clean*Temp is called only in the states that make it safe, sets its done-flag together with the removal and writes the partial report. " +
 			"NOT decided: equality of Count/Size with the bytes removed, completeness (no volatile file survives), merge arithmetic.",
@@ -309,6 +310,7 @@ func runC14(c *an.Ctx) {
 	c.Floor("W2", "appends to a report's Paths", nPaths, 1)
 
 	ruleW2CountedOnce(c)
+	ruleW1Containment(c)
 	// ---------------- W3 ----------------
 	ruleW3(c)
 }
@@ -604,27 +606,11 @@ func ruleW2CountedOnce(c *an.Ctx) {
 		return
 	}
 	isCacheMap := func(v ssa.Value) bool { return an.LoadsField(v, cache) }
-	// accumulations: store to Size of a value derived from a lookup cache[K]
-	n := 0
-	for _, st := range an.StoresToField(fn, sizeF) {
-		if st.Parent() != fn {
-			continue
-		}
-		sl := newSlice(fn)
-		sl.add(st.Val)
-		var key ssa.Value
-		for v := range sl.seen {
-			if lk, ok := v.(*ssa.Lookup); ok && isCacheMap(lk.X) {
-				key = lk.Index
-			}
-		}
-		if key == nil {
-			continue
-		}
-		n++
-		// lists whose every element is deleted from the cache later on
-		deletedLists := []ssa.Value{}
-		an.Instrs(fn, func(in ssa.Instruction) {
+	fam := familyOf(p, fn, 2)
+	// deletedListsIn(m): slices of m every element of which is deleted from the cache in m
+	deletedListsIn := func(m *ssa.Function) []ssa.Value {
+		var out []ssa.Value
+		an.Instrs(m, func(in ssa.Instruction) {
 			call, ok := in.(*ssa.Call)
 			if !ok {
 				return
@@ -634,47 +620,118 @@ func ruleW2CountedOnce(c *an.Ctx) {
 				return
 			}
 			base := elemBase(args[1])
-			if base == nil {
+			elemLoad, _ := args[1].(ssa.Instruction)
+			if base == nil || elemLoad == nil {
 				return
 			}
 			// the delete is crossed on every iteration that loads the element
-			elemLoad, _ := args[1].(ssa.Instruction)
-			if elemLoad == nil {
-				return
-			}
-			w := an.Query{Fn: fn, After: elemLoad,
+			w := an.Query{Fn: m, After: elemLoad,
 				Target:  func(x ssa.Instruction) bool { return x == elemLoad || an.IsReturn(x) },
 				Barrier: func(x ssa.Instruction) bool { return x == ssa.Instruction(call) }}.Find()
 			if w == nil {
-				deletedLists = append(deletedLists, base)
+				out = append(out, base)
 			}
 		})
-		barrier := func(x ssa.Instruction) bool {
-			call, ok := x.(*ssa.Call)
-			if !ok {
-				return false
-			}
-			if args, isDel := an.IsBuiltinCall(call, "delete"); isDel && len(args) == 2 && isCacheMap(args[0]) && args[1] == key {
-				return true
-			}
-			if args, isApp := an.IsBuiltinCall(call, "append"); isApp && len(args) == 2 {
-				if sliceBase(args[1]) == key || storedElem(args[1]) == key {
-					for _, dl := range deletedLists {
-						if sameSliceValue(dl, call) || sameSliceValue(dl, args[0]) {
-							return true
+		return out
+	}
+	// counted entries: lookups cache[K] with K an element of a list, whose entry is only read (its size
+	// and count go into a sum); the entry that absorbs a nested one is written to and is not "counted"
+	n := 0
+	for _, m := range fam {
+		m := m
+		deleted := deletedListsIn(m)
+		// a list returned by m whose every element is deleted by the caller counts as deleted as well
+		returnedAndDeleted := func(v ssa.Value) bool {
+			for caller, sites := range p.Callers(m) {
+				callerDeleted := deletedListsIn(caller)
+				for _, cs := range sites {
+					cv := cs.Value()
+					if cv == nil {
+						continue
+					}
+					an.Instrs(m, func(in ssa.Instruction) {})
+					for i := 0; i < m.Signature.Results().Len(); i++ {
+						// does result i of m carry v?
+						carries := false
+						an.Instrs(m, func(in ssa.Instruction) {
+							if r, ok := in.(*ssa.Return); ok && i < len(r.Results) && sameSliceValue(an.RetVal(r, i), v) {
+								carries = true
+							}
+						})
+						if !carries {
+							continue
+						}
+						var res ssa.Value = cv
+						if m.Signature.Results().Len() > 1 {
+							res = nil
+							for _, r := range an.Referrers(cv) {
+								if ex, ok := r.(*ssa.Extract); ok && ex.Index == i {
+									res = ex
+								}
+							}
+						}
+						for _, dl := range callerDeleted {
+							if res != nil && sameSliceValue(dl, res) {
+								return true
+							}
 						}
 					}
 				}
 			}
 			return false
 		}
-		w := an.Query{Fn: fn, After: st,
-			Target:  func(x ssa.Instruction) bool { return x == ssa.Instruction(st) || an.IsReturn(x) },
-			Barrier: barrier}.Find()
-		c.Check("W2", "counted-entry-leaves-cache@(*Fork).vdrKillSome", st.Pos(), w == nil,
-			fmt.Sprintf("an entry whose size is added to the kill report must be deleted from fileParamMap in the same call (directly, or via a list whose elements are all deleted: %d such lists); otherwise the next vdrKillSome counts it again; %s", len(deletedLists), c.WitnessString(w)))
+		an.Instrs(m, func(in ssa.Instruction) {
+			lk, ok := in.(*ssa.Lookup)
+			if !ok || !isCacheMap(lk.X) || lk.CommaOk || elemBase(lk.Index) == nil {
+				return
+			}
+			// only read?
+			written := false
+			for _, r := range an.Referrers(lk) {
+				if fa, ok := r.(*ssa.FieldAddr); ok {
+					for _, r2 := range an.Referrers(fa) {
+						if st, ok := r2.(*ssa.Store); ok && st.Addr == ssa.Value(fa) {
+							written = true
+						}
+					}
+				}
+			}
+			if written {
+				return
+			}
+			n++
+			key := lk.Index
+			barrier := func(x ssa.Instruction) bool {
+				call, ok := x.(*ssa.Call)
+				if !ok {
+					return false
+				}
+				if args, isDel := an.IsBuiltinCall(call, "delete"); isDel && len(args) == 2 && isCacheMap(args[0]) && args[1] == key {
+					return true
+				}
+				if args, isApp := an.IsBuiltinCall(call, "append"); isApp && len(args) == 2 {
+					if sliceBase(args[1]) == key || storedElem(args[1]) == key {
+						for _, dl := range deleted {
+							if sameSliceValue(dl, call) || sameSliceValue(dl, args[0]) {
+								return true
+							}
+						}
+						if returnedAndDeleted(call) {
+							return true
+						}
+					}
+				}
+				return false
+			}
+			w := an.Query{Fn: m, After: lk,
+				Target:  func(x ssa.Instruction) bool { return x == ssa.Instruction(lk) || an.IsReturn(x) },
+				Barrier: barrier}.Find()
+			c.Check("W2", "counted-entry-leaves-cache@"+an.FnName(m), lk.Pos(), w == nil,
+				"an entry of the file cache that is counted into the kill report must be deleted from fileParamMap in the same call (directly, or via a list whose elements are all deleted, here or by the caller the list is returned to); otherwise the next vdrKillSome counts it again; "+c.WitnessString(w))
+		})
 	}
-	c.Floor("W2", "report size accumulations fed from the file cache in vdrKillSome", n, 1)
+	c.Floor("W2", "counted cache entries in vdrKillSome or its private helpers", n, 1)
+	_ = sizeF
 }
 
 // storedElem: spread is the one-element temporary of append(s, x); returns x.
@@ -697,4 +754,50 @@ func storedElem(spread ssa.Value) ssa.Value {
 		}
 	}
 	return nil
+}
+
+// W1 (containment).  Whether one path lies inside another decides which cache entries collapse into
+// their parent directory (vdrKillSome) and which files an argument keeps alive (anyOverlap).  A
+// containment test by string prefix is correct only if the prefix ends with the path separator;
+// otherwise a sibling whose name merely starts with the other's name ("reads.bam.bai" next to
+// "reads.bam") counts as inside it: it is dropped from the removal list while still being counted.
+// In the file that holds the VDR code every strings.HasPrefix with a non-constant needle must have a
+// needle of the form x + "/".
+func ruleW1Containment(c *an.Ctx) {
+	p := c.P
+	anchor := c.NeedFunc(pkgCore, "(*Fork).vdrKillSome")
+	if anchor == nil {
+		return
+	}
+	file := p.SSA.Fset.Position(anchor.Pos()).Filename
+	n := 0
+	for _, fn := range p.FuncsOf(pkgCore) {
+		if !fn.Pos().IsValid() || p.SSA.Fset.Position(fn.Pos()).Filename != file {
+			continue
+		}
+		an.Instrs(fn, func(in ssa.Instruction) {
+			call, ok := in.(*ssa.Call)
+			if !ok {
+				return
+			}
+			f := call.Call.StaticCallee()
+			if f == nil || f.Pkg == nil || f.Pkg.Pkg.Path() != "strings" || f.Name() != "HasPrefix" || len(call.Call.Args) != 2 {
+				return
+			}
+			needle := call.Call.Args[1]
+			if _, isC := an.ConstVal(needle); isC {
+				return
+			}
+			n++
+			terminated := false
+			if b, ok := needle.(*ssa.BinOp); ok && b.Op == token.ADD {
+				if cv, isC := an.ConstVal(b.Y); isC && cv.Kind() == constant.String && strings.HasSuffix(constant.StringVal(cv), "/") {
+					terminated = true
+				}
+			}
+			c.Check("W1", "containment-prefix-ends-with-separator("+an.StablePath(needle)+")@"+an.FnName(fn), call.Pos(), terminated,
+				"a path containment test by prefix must use a prefix that ends with the separator (x + \"/\"); without it a sibling entry whose name starts with the other's name is treated as nested: it is not removed but still counted in the kill report, and keep-alive matching goes wrong the same way")
+		})
+	}
+	c.Floor("W1", "prefix containment tests in the VDR file", n, 1)
 }
